@@ -7,6 +7,9 @@ import l2
 import replaylib
 
 
+WRAPS = ((1, "Rotate_U"), (2, "UTransform_em"), (3, "UDaggerTransform_em"), (4, "UTransform_v_scale"))
+
+
 def run(rep, tier):
     bdir, inc = l2.std_setup(rep, "C06")
     ctext = extract.instantiate(open(os.path.join(core.VERIF, "contracts", "C06_rot_l2.c")).read(), rep)
@@ -43,6 +46,9 @@ def run(rep, tier):
         qs.append(l2.Query("mixing_matrix.d%d" % d, ctm, ["D=%d" % d], trig=True, timeout=600, unwind=80,
                            function="Const::GetTransformationMatrix (ordered product of plane rotations)", where="src/const.cpp"))
 
+    cwp = extract.instantiate(open(os.path.join(core.VERIF, "contracts", "C06_wrap_l2.c")).read(), rep)
+    for wch, nm in WRAPS:
+        qs.append(l2.Query("matrix_entry.%s" % nm, cwp, ["WHICH=%d" % wch], timeout=60, unwind=12, function="SU_vector::%s" % nm.replace("_", "("), where="src/SUNalg.cpp"))
     cwr = extract.instantiate(open(os.path.join(core.VERIF, "contracts", "C06_wr_l2.c")).read(), rep)
     for wch, nm in ((1, "params"), (2, "matrices")):
         qs.append(l2.Query("weighted_rotation.%s" % nm, cwr, ["WHICH=%d" % wch], timeout=60, function="SU_vector::WeightedRotation (%s overload)" % nm, where="src/SUNalg.cpp"))
